@@ -98,6 +98,28 @@ static void free_case(const args_t *a, long idx)
     }
 }
 
+/* hash states whose chaining value / digest has a rare word pattern (corpus, see model/mine.c), then freed */
+static void special_free_case(const args_t *a, long idx, const uint8_t *msg, size_t len, int shape, const char *kind, const char *pat)
+{
+    size_t sz = sizeof(tinyjambu_hash_state_t), j, nz = 0, first = 0;
+    uint8_t *p = gb_place(&gST, sz, PL_MID, 0, 0, 0xEE), out[32];
+    tinyjambu_hash_state_t *s = (tinyjambu_hash_state_t *)p;
+    static const char *const SH[] = {"update free", "update update(1) free", "update finalize free", "update finalize reinit free"};
+    for (j = 0; j < sz; ++j) p[j] = (uint8_t)(0x11 * (1 + (j & 7)));
+    set_case("{\"h\":\"erase\",\"mode\":\"free-special\",\"i\":%ld,\"kind\":\"%s\",\"pattern\":\"%s\",\"history\":\"init %s\"}", idx, kind, pat, SH[shape]);
+    ++n_eval; ++n_free[0]; n_state_bytes += sz;
+    cls_add(mix64(0x5BED, (uint64_t)idx));
+    if (idx % 53 == 0 || a->only >= 0) emit_sample();
+    tinyjambu_hash_init(s);
+    tinyjambu_hash_update(s, msg, len);
+    if (shape == 1) tinyjambu_hash_update(s, (const uint8_t *)".", 1);
+    if (shape >= 2) tinyjambu_hash_finalize(s, out);
+    if (shape == 3) tinyjambu_hash_reinit(s);
+    if (GUARD_TRY()) { tinyjambu_hash_free(s); GUARD_END(); } else { emit_viol("free-overruns:hash", "tinyjambu_hash_free faulted at %p", g_fault_addr); return; }
+    for (j = 0; j < sz; ++j) if (p[j]) { if (!nz) first = j; ++nz; }
+    if (nz) emit_viol("state-not-erased:hash", "%zu of %zu bytes of the hash state are non-zero after tinyjambu_hash_free, first at offset %zu (corpus message with %s, history: init %s)", nz, sz, first, pat, SH[shape]);
+}
+
 /* A caller that passes `unsigned size` leaves the upper half of the 64-bit argument register undefined (the x86-64
  * psABI does not require 32-bit arguments to be extended).  This call type puts recognisable garbage there; a
  * library that hands the register on as a size_t without widening it wipes gigabytes. */
@@ -180,6 +202,22 @@ int main(int argc, char **argv)
     gb_init(&gST, "state", 4096); gb_init(&gAR, "arena", 1 << 16);
     if (!strcmp(a.mode, "free")) {
         for (i = 0; i < a.p1; ++i, ++idx) if (mine(&a, idx)) free_case(&a, idx);
+        {   /* corpus: hash states holding a rare chaining value / digest, then freed */
+            FILE *f = special_open();
+            special_t sp;
+            if (!f) { if (a.batch == 0) emit_info("special corpus not available ($VERIF_SPECIAL)"); }
+            else {
+                while (special_next(f, &sp)) {
+                    uint8_t msg[32];
+                    size_t len;
+                    int sh;
+                    if (strcmp(sp.tok[0], "hashmid") && strcmp(sp.tok[0], "hashfin")) continue;
+                    len = special_unhex(sp.tok[1], msg, sizeof msg);
+                    for (sh = 0; sh < 4; ++sh, ++idx) if (mine(&a, idx)) special_free_case(&a, idx, msg, len, sh, sp.tok[0], sp.tok[sp.ntok - 1]);
+                }
+                fclose(f);
+            }
+        }
     } else if (!strcmp(a.mode, "clean")) {
         static const size_t BIG[] = {4096, 65535, 65536, (1u << 20) + 3, 4095, 4097};
         long N = a.p1 > 0 ? a.p1 : 300, off, sz;
